@@ -27,8 +27,15 @@ theorem distance_symm (a b : Bytes) : distance a b = distance b a := Kad.distanc
 theorem distance_zero_iff_eq (a b : Bytes) (h : a.length = b.length) :
     (∀ d ∈ distance a b, d = 0) ↔ a = b := Kad.distance_zero_iff_eq a b h
 
+-- Original statement, FALSE for the model as written (model bytes are arbitrary `Nat`s, not < 256):
+--   theorem forEach_perm (c : Cache) (k : Bytes) : (c.forEach k).Perm c.entries
+-- Counterexample: c = { locus := [256], minPer := 0, max := 10, count := 1, buckets := [{ entries := [⟨[0],[],1,0⟩] }] },
+-- k = [0]: `distance = [256]`, `leadingZeros [256] = 0` but `bitOr1 [256] 0 = false`, so bucket 0 is in none of the
+-- three segments of `visitOrder` and `c.forEach [0] = []` while `c.entries` has one element.
+-- Repaired by the hypotheses that the locus and the query key are byte strings (as in the theorems below).
 /-- ⊢ enumeration visits every entry exactly once … -/
-theorem forEach_perm (c : Cache) (k : Bytes) : (c.forEach k).Perm c.entries := Kad.forEach_perm c k
+theorem forEach_perm (c : Cache) (k : Bytes) (hl : validBytes c.locus) (hk : validBytes k) :
+    (c.forEach k).Perm c.entries := Kad.forEach_perm c k hl hk
 
 /-- ⊢ … in non-decreasing distance from the query key. Entry keys are at least as long as the locus (what the
     DHT's peer cache holds); the query key has any length, shorter or longer than the locus. -/
